@@ -386,6 +386,14 @@ mut('ok-c10-sig-normalise', ['C10'], OB,
       "        msig = msg.signature or ''\n        esig = m.sigIn or ''\n\n        if not esig == msig:")], kind='benign')
 
 # ---- C18 ------------------------------------------------------------------
+mut('ok-c18-error-handler-partition', ['C18'], M,
+    [("        raise MarshallingError(str(e).replace('interface', 'error', 1))",
+      "        head, sep, reason = str(e).partition(': ')\n        raise MarshallingError(head.replace('interface', 'error') + sep + reason)")],
+    kind='benign', note='the converting handler takes the message apart with partition (always three parts): cannot fail - sound twin of seed C18-r13')
+mut('c18-error-handler-split-unpack', ['C18'], M,
+    [("        raise MarshallingError(str(e).replace('interface', 'error', 1))",
+      "        head, reason = str(e).split(': ', 1)\n        raise MarshallingError(head.replace('interface', 'error') + ': ' + reason)")],
+    ['C18.D1'], note='split(sep, 1) unpacked into two names: ValueError when the text has no separator')
 mut('ok-c18-member-fast-path-ascii-alnum', ['C18'], M,
     [("        if mbr_re.search(n):\n            raise Exception(\n                'Names contains a character outside the set [A-Za-z0-9_]')",
       "        if not (n.isascii() and n.isalnum()) and mbr_re.search(n):\n            raise Exception(\n                'Names contains a character outside the set [A-Za-z0-9_]')")],
